@@ -43,6 +43,8 @@ class IntervalItem(Item):
                 lower, upper = upper, lower
             return lower <= index <= upper
 
-        if isinstance(self.interval, tuple):
-            return applies(self.interval)
-        return any(applies(i) for i in self.interval)
+        intervals = self.interval
+        if len(intervals) > 0 and not isinstance(intervals[0], (tuple, list)):
+            # A single interval, which is a list instead of a tuple after loading it from yaml
+            intervals = [intervals]
+        return any(applies(i) for i in intervals)
